@@ -156,6 +156,14 @@ class Xform:
             return env[e.id]
         if isinstance(e, ast.Name) and e.id in env and env[e.id][1][:1] == ("const",):
             return env[e.id][1][1]  # a local bound to a constant (e.g. a parameter of an inlined helper)
+        if isinstance(e, ast.Attribute) and isinstance(e.value, ast.Name) and e.value.id in env:
+            from ..model import Rec
+
+            base = env[e.value.id]
+            if isinstance(base, tuple) and base[:1] == ("val",) and len(base) == 2 and isinstance(base[1], tuple) and base[1][:1] == ("const",):
+                base = base[1][1]
+            if isinstance(base, Rec) and e.attr in base._names:
+                return base.field(e.attr)  # a field of a constant record (the element of a constant table)
         if isinstance(e, (ast.Tuple, ast.List)):
             return tuple(self.const(x, env) for x in e.elts)
         if isinstance(e, ast.Call) and isinstance(e.func, ast.Attribute) and e.func.attr in ("items", "keys", "values") and not e.args and not e.keywords:
@@ -206,7 +214,7 @@ class Xform:
             return v
         if isinstance(e, ast.IfExp):
             return self.expr(e.body if self.test(e.test, env) else e.orelse, env)
-        if isinstance(e, ast.Attribute) or isinstance(e, ast.BinOp):
+        if isinstance(e, (ast.Attribute, ast.BinOp, ast.Tuple, ast.List)):
             v = self.const(e, env)
             return NONE if v is None else ("const", v)
         raise AnalysisError(f"dictxform: expression `{norm(e)[:60]}` in {self.f.qualname} not modelled")
